@@ -22,7 +22,12 @@ declarations:
     - decl: const std::string & getName() const
     - decl: Circle * grow(double factor)
       return_this: true
+  - decl: "class Ring : public Circle"
+    declarations:
+    - decl: Ring()
+    - decl: double inner() const
   - decl: int count(int n)
+  - decl: enum Fill { SOLID = 3, DASHED }
 - decl: const std::string getLabel()
 - decl: void scale(double *v +rank(1), int n +implied(size(v)))
 - decl: enum Color { RED, BLUE }
@@ -37,10 +42,15 @@ declarations:
 LIB_PLAIN = """
 library: plain
 language: c
+patterns:
+  check_positive: |
+    if (SHC_rv < 0) {{ return 0; }}
 declarations:
 - decl: int add(int a, int b)
 - decl: double half(double x)
 - decl: void poke(void)
+- decl: int checked(int v)
+  C_error_pattern: check_positive
 """
 
 LIB_NEST = """
